@@ -311,6 +311,20 @@ impl RawClient {
         self.request(&wire::std_request_frame()).await
     }
 
+    /// As `session`, with the CONNECT request on the client bidirectional stream whose id is
+    /// `sid` (a multiple of 4): the earlier bidirectional streams are opened and never used.
+    pub async fn session_on(port: u16, opts: &RawOpts, sid: u64) -> Result<RawClient, String> {
+        let mut c = RawClient::connect(port, opts).await?;
+        c.open_control(&wire::std_settings_frame()).await?;
+        for _ in 0..sid / 4 {
+            let (s, r) = c.open_bi().await?;
+            c.keep_send.push(s);
+            c.keep_recv.push(r);
+        }
+        c.request(&wire::std_request_frame()).await?;
+        Ok(c)
+    }
+
     /// `connect` + `establish`.
     pub async fn session(port: u16, opts: &RawOpts) -> Result<RawClient, String> {
         let mut c = RawClient::connect(port, opts).await?;
